@@ -390,8 +390,12 @@ def main():
     base_path = os.path.join(ROOT, "obligations.baseline.json")
     baseline = json.load(open(base_path)) if os.path.exists(base_path) else {}
     if a.write_baseline:
-        baseline[pid] = sorted(n for n, i in summ.items() if i["status"] in ("proved", "covered"))
-        json.dump(baseline, open(base_path, "w"), indent=0, sort_keys=True)
+        import fcntl
+        with open(base_path + ".lock", "w") as lk:      # several properties may be re-baselined in parallel
+            fcntl.flock(lk, fcntl.LOCK_EX)
+            baseline = json.load(open(base_path)) if os.path.exists(base_path) else {}
+            baseline[pid] = sorted(n for n, i in summ.items() if i["status"] in ("proved", "covered"))
+            json.dump(baseline, open(base_path, "w"), indent=0, sort_keys=True)
         print(f"baseline for {pid}: {len(baseline[pid])} obligations")
     expected = set(baseline.get(pid, []))
     if not a.only:
